@@ -256,7 +256,14 @@ class C11(Check):
                                             combo[w] = v
                                         yield (n, edges, tuple(combo), (), ne)
 
-        ls = [("L0-negative-cases", list(negatives())),
+        def visibility(maxlen):
+            decls = [(kd, ex) for kd in self.VIS_KINDS for ex in (True, False)]
+            for n in range(1, maxlen + 1):
+                for seq in itertools.product(decls, repeat=n):
+                    for target in range(n):
+                        for form in ("module", "names"):
+                            yield ("vis", seq, target, form)
+        ls = [("L0-negative-cases", list(negatives())), (f"Lv-visibility-matrix-modules-of-<={2 if tier == 'quick' else 3}-declarations", list(visibility(2 if tier == "quick" else 3))),
               ("L0b-leaf-modules-without-exports", noexports(4, 1) if tier == "quick" else noexports(5, 1))]
         if tier == "quick":
             ls += [("L1-n<=2-all-combinations", all_combos(2)), ("L2-n=3-<=2-deviating-edges", deviating(3, 2)),
@@ -272,6 +279,8 @@ class C11(Check):
     def describe(self, case):
         if case[0] == "neg":
             return {"negative": case[1], "spelling": SPELLINGS[case[2]]}
+        if case[0] == "vis":
+            return {"module": [("export " if ex else "hidden ") + kd for kd, ex in case[1]], "target": case[2], "form": case[3]}
         n, edges, combo, sd = case[:4]
         return {"noexp": list(case[4]) if len(case) > 4 else [], "n": n, "edges": [f"{name(a)}->{name(b)}:{'/'.join(EDGE_PARAMS[c])}" for (a, b), c in zip(edges, combo)], "subdir": list(sd)}
 
@@ -286,6 +295,67 @@ class C11(Check):
                 fname = "sub/" + fname
             files[fname] = module_source(i, edges, params, set(sd), noexp=ne)
         return files, expected(n, edges, params, ne), params
+
+    # visibility matrix: a module is a sequence of declarations, each of a kind (variable, function, class, type alias) and either
+    # exported or hidden; an importer reaches for every one of them in both access forms.  Exported ones must work, hidden ones must be
+    # refused at compile time - wherever they stand relative to the exported declarations.
+    VIS_KINDS = ["var", "fn", "class", "type"]
+
+    @staticmethod
+    def vis_decl(kind, k, exported):
+        e = "export " if exported else ""
+        if kind == "var":
+            return [f"{e}va{k}: int = {k + 1}"]
+        if kind == "fn":
+            return [f"{e}fu{k}: fn() -> int = fn() -> int {{", f"\treturn {k + 11}", "}"]
+        if kind == "class":
+            return [f"{e}class Kl{k} {{", "\tv: int", "\tconstructor(self) {", f"\t\tself.v = {k + 21}", "\t}", "}"]
+        return [f"{e}type Ty{k} int"]
+
+    @staticmethod
+    def vis_use(kind, k, form):
+        """-> (importer source, expected last line) ; form: "module" (m.x) or "names" (import x from m)"""
+        if kind == "var":
+            return (f"import mv\nprint mv.va{k}\n", str(k + 1)) if form == "module" else (f"import va{k} from mv\nprint va{k}\n", str(k + 1))
+        if kind == "fn":
+            return (f"import mv\nprint mv.fu{k}()\n", str(k + 11)) if form == "module" else (f"import fu{k} from mv\nprint fu{k}()\n", str(k + 11))
+        if kind == "class":
+            return ((f"import mv\nob = mv.Kl{k}()\nprint ob.v\n", str(k + 21)) if form == "module"
+                    else (f"import Kl{k} from mv\nob = Kl{k}()\nprint ob.v\n", str(k + 21)))
+        if form == "module":
+            return None
+        return (f"import type Ty{k} from mv\ntv: Ty{k} = {k + 31}\nprint tv\n", str(k + 31))
+
+    def run_vis(self, case):
+        _, seq, target, form = case
+        kind, exported = seq[target]
+        use = self.vis_use(kind, target, form)
+        if use is None:
+            return {"outcome": "inexpressible", "nontrivial": False}
+        lines = ['print "init mv"']
+        for k, (kd, ex) in enumerate(seq):
+            lines += self.vis_decl(kd, k, ex)
+        files = {"main.ms": 'print "init main"\n' + use[0], "mv.ms": "\n".join(lines) + "\n"}
+        d = driver.fresh_dir()
+        driver.write_files(d, files)
+        res = driver.run(["run", "main.ms", "-q"], d)
+        viol = []
+        desc = {"module": [("export " if ex else "hidden ") + kd for kd, ex in seq], "target": target, "form": form}
+        sig = {"kind": None, "decl": kind, "exported": exported, "form": form, "before": ",".join(("E" if ex else "H") + kd for kd, ex in seq[:target])}
+        detail = {"files": files, "res": res.brief(), "case": desc}
+        rejected = driver.compile_rejected(res)
+        if exported:
+            if rejected or res.exit != 0 or res.lines()[-1:] != [use[1]]:
+                viol.append({"sig": dict(sig, kind="exported-not-usable"), "what": f"{desc}: an exported {kind} must be usable by the importer; "
+                             f"exit {res.exit}, stdout {res.out[-200:]!r}", "detail": detail})
+        else:
+            if not rejected:
+                viol.append({"sig": dict(sig, kind="hidden-visible"), "what": f"{desc}: a {kind} that is not marked `export` must not be visible to the "
+                             f"importer; exit {res.exit}, stdout {res.out[-160:]!r}", "detail": detail})
+            elif any(l.strip().startswith("init ") for l in res.out.split("\n")):
+                viol.append({"sig": dict(sig, kind="ran-before-reject"), "what": f"{desc}: statements ran although compilation failed", "detail": detail})
+        return {"outcome": ("vis-exported" if exported else "vis-hidden") + ("-VIOL" if viol else ""), "viol": viol, "nontrivial": True,
+                "tags": ["vis", "vis-exported" if exported else "vis-hidden"]}
 
     def run_neg(self, case):
         _, kind, spi = case
@@ -321,6 +391,8 @@ class C11(Check):
     def run_case(self, case):
         if case[0] == "neg":
             return self.run_neg(case)
+        if case[0] == "vis":
+            return self.run_vis(case)
         files, exp, params = self.project(case)
         viol = []
         desc = self.describe(case)
